@@ -40,7 +40,12 @@ def main():
             if os.path.exists(path):
                 shutil.copy(path, os.path.join(dest, "replay_%s.json" % pid))
         print(pid, "DETECTED" if results[pid]["detected"] else "missed", results[pid]["wall_s"], "s", viol[:1])
-    meta["checks_run"] = results
+    meta_now = json.load(open(meta_p)) if os.path.exists(meta_p) else {}
+    prev = meta_now.get("checks_run", {})
+    prev.update(results)
+    meta["checks_run"] = prev
+    if "confirmed" in meta_now:
+        meta["confirmed"] = meta_now["confirmed"]
     meta["checked_at"] = time.strftime("%Y-%m-%dT%H:%M:%SZ", time.gmtime())
     json.dump(meta, open(meta_p, "w"), indent=1)
     # restore generated files for the real repository
